@@ -26,7 +26,7 @@ CLAIMS = {
             "request-level atomic, fail-stop object store; mast flush contract assumed; the lift from these ordering obligations to 'every crash prefix reads as old or new' is argued in DESIGN (uses M-absorb, proved for fully assigned rows only); open-time merge commit and vacuum not yet under contract", "DESIGN §6 C04"),
     "C05": ("BEGIN/COMMIT/ROLLBACK state contracts at both layers: snapshot is an independent clone of the same abstract tree, rollback restores exactly it, a failed commit keeps it, "
             "write-time state machine (fixed for the transaction unless set explicitly, cleared at commit/rollback), connection context invariant",
-            "mast.Clone independence assumed; SQLite calls the transaction callbacks in protocol order; statement-level rollback inside a transaction is SQLite's", "DESIGN §6 C05"),
+            "mast.Clone independence assumed; SQLite calls the transaction callbacks in protocol order; statement-level rollback inside a transaction is SQLite's; known finding (obligation Update/post@later-statement-wins-at-equal-time): with ONE write time per transaction a later statement on the same row loses against an earlier one", "DESIGN §6 C05"),
     "C08": ("Go<->protobuf tagging and SQLite<->Go conversions verified inverse on the five storage classes (bitwise for REAL), codec and merge never alter a stored value object; "
             "the empty-TEXT defect of the binding is a known finding",
             "binding accessors/result setters assumed from their source; protobuf transport assumed", "DESIGN §6 C08"),
@@ -41,7 +41,7 @@ CLAIMS = {
             "TraceHistory and the gob/json root codecs are not decided; mast.Mast Get/Insert assumed (finite-map contract)", "DESIGN §6 C17"),
     "C06": ("scan contracts: xBestIndex (both layers) proposes only windows the scan implements and reports ORDER BY as consumed only for a single key term; xFilter positions the cursor on the first key of the window for every operator/direction/bound combination; "
             "xNext steps in key order, skips kv tombstones and deleted rows, stops exactly at the window's end; Column returns the stored value of the current row; five genuine scan defects found, replayed at SQL level and fixed",
-            "mast cursor contract assumed (immutable snapshot, strictly increasing keys); key order treated as an opaque total preorder ordU consistent with Key.Order; SQLite re-checks constraints (Omit unset)", "DESIGN §6 C06"),
+            "mast cursor contract assumed (immutable snapshot, strictly increasing keys) and compared with the real dependency by a bounded conformance run: its Backward part is REFUTED (known finding, dependency; s3db no longer requests descending scans, fix a29a1fb); key order treated as an opaque total preorder ordU consistent with Key.Order; SQLite re-checks constraints (Omit unset); known finding: statements of one transaction tie on the write time and the earlier one wins", "DESIGN §6 C06"),
     "C07": ("key order: typeIndex/orderType/order/Key.Order verified against SQLite's documented class order and numeric/text/blob comparison for all key pairs; NewKey/Value round trip; Key.Layer verified against its spec; "
             "two lemmas decide the cross-class clauses and both FAIL on the real code (known findings, replayed): the INTEGER/REAL comparison is not SQLite's exact one above 2^53 (not transitive), and keys that compare equal (INTEGER n, REAL n.0) get different mast layers (process panic on insert)",
             "within one storage class the order is a total order; the int->float conversion inside the Go contracts is an uninterpreted monotone function, its exact semantics enters through the SMT-LIB lemma (bit-vectors + floating point); mast's own use of Order/Layer is assumed", "DESIGN §6 C07, §12"),
@@ -54,8 +54,8 @@ CLAIMS = {
             "failed commit retires nothing; strict opens never skip",
             "hangs, wall-clock bounds and dependency internals are outside contracts; ChangesCursor/Vacuum/OpenKV not yet under contract", "DESIGN §6 C14"),
     "C09": ("vacuum: only rows that are already invisible (deleted) are turned into tombstones; history is deleted only after the purged tree was committed; a version is offered for deletion only if ALL its successors were created no later than the cutoff; "
-            "only nodes the diff reported as removed are offered and no node of the handle's own tree is; nodes are deleted before the versions that reference them; genuine defect found (vacuum deleted shared nodes of the current version: table read empty), replayed and fixed",
-            "that mast DiffIter/DiffLinks visit every entry/node is an assumed clause (higher-order dependency); 'rows unchanged' as one functional postcondition of Vacuum is not stated; crash points are covered as ordering obligations only", "DESIGN §6 C09, §12"),
+            "only nodes the diff reported as removed are offered and no node of the handle's own tree is; the rows visible through the table are exactly what they were, whatever the outcome (functional postcondition over the tree); the version shown afterwards is the one whose nodes were protected; nodes are deleted before the versions that reference them; genuine defect found (vacuum deleted shared nodes of the current version: table read empty), replayed and fixed",
+            "that mast DiffIter/DiffLinks visit every entry/node is an assumed clause (higher-order dependency); crash points are covered as ordering obligations only; known finding: with node_cache_entries > 0 the node cache keeps remembering deleted nodes as stored (empty table after a later vacuum)", "DESIGN §6 C09, §12"),
     "C10": ("cutoff boundaries: row side strictly before the cutoff (call-site assertion in Vacuum), purge test in the RemoveTombstones callback (stamp != 0 and strictly before the cutoff, everything else untouched), version side every successor not after the cutoff",
             "completeness of the version-side selection and idempotence of a repeated vacuum are not stated; iterator coverage assumed", "DESIGN §6 C10, §12"),
     "C18": ("node encryption: every slice/array access of encrypt, decrypt and the legacy box path is in bounds for EVERY ciphertext (any length, truncated or not: error, never a panic); the ciphertext is a function of (key, plaintext) only (nonce = blake2b(plaintext||key): unchanged nodes deduplicate); "
